@@ -312,10 +312,11 @@ impl<W: 'static, R: 'static, T: 'static> XGenerator<W, R, T> {
                 let eq_f = to_primitive!(eq_func, Function);
                 let mut current_group: Vec<Rc<ManagedXValue<W, R, T>>> = Vec::new();
 
+                // the end-of-input marker is not an examined element: it takes nothing from the search budget
                 inner
-                    .map(Some)
-                    .chain(iter::once(None))
                     .zip(rt.limits.search_iter())
+                    .map(|(i, s)| (Some(i), s))
+                    .chain(iter::once((None, Ok(()))))
                     .filter_map(move |(i, s)| {
                         if let Err(violation) = s {
                             return Some(Err(violation));
